@@ -389,11 +389,11 @@ class Driver:
         self.ctx.paths.setdefault(str(a.get("f", 0)), p)
         if fr is not None:
             L.mpi.MPI_Info_free(byref(fr))
-        if e == 0:
+        if e == 0 or ncid.value >= 0:   # (a consistency warning such as NC_EMULTIDEFINE_CMODE still returns a usable id)
             self.ctx.files[str(a.get("f", 0))] = ncid.value
             self.ctx.paths[str(a.get("f", 0))] = p
             self.ctx.opened = getattr(self.ctx, "opened", set()) | {str(a.get("f", 0))}
-        return e, {"ncid": ncid.value if e == 0 else -1, "exists": os.path.exists(p)}
+        return e, {"ncid": ncid.value if (e == 0 or ncid.value >= 0) else -1, "exists": os.path.exists(p)}
 
     def op_open(self, a):
         L = self.L
@@ -1058,6 +1058,28 @@ class Driver:
             return -1
         return struct.unpack(">Q", b[4:12])[0] if b[3] == 5 else struct.unpack(">I", b[4:8])[0]
 
+    def obs_hdrsha(self, a):
+        """digest of the header bytes with the record-count field blanked (rank 0)"""
+        if self.rank != 0:
+            return None
+        b = self._filebytes(a)
+        if b is None:
+            return "absent"
+        try:
+            h = cdfdecode.decode_header(b)
+        except cdfdecode.FormatError:
+            return "undecodable"
+        hb = bytearray(b[:h["xsz"]])
+        n = 8 if h["fmt"] == 5 else 4
+        hb[4:4 + n] = b"\0" * n
+        return hashlib.sha256(bytes(hb)).hexdigest()[:16]
+
+    def obs_filesize(self, a):
+        if self.rank != 0:
+            return None
+        p = self.ctx.paths.get(str(a.get("f", 0)))
+        return os.path.getsize(p) if p and os.path.exists(p) else -1
+
     def obs_sha(self, a):
         if self.rank != 0:
             return None
@@ -1130,6 +1152,14 @@ class Driver:
             self.L.shim.verif_shim_balance(bal)
             o.update(types=bal[0], infos=bal[1], comms=bal[2], files=bal[3])
         return o
+
+    def obs_io(self, a):
+        """PMPI shim: MPI-IO data transfers issued by this rank since the fault was armed; did it fire"""
+        if self.L.shim is None:
+            return None
+        bal = (c_longlong * 8)()
+        self.L.shim.verif_shim_balance(bal)
+        return {"count": bal[4], "fired": bal[5]}
 
     def obs_mpi(self, a):
         """PMPI shim: MPI calls made by this rank since the previous drain"""
